@@ -8,6 +8,10 @@ package verifsim
 // Update returns. Only what SQLite made durable survives.
 
 import (
+	"time"
+	"net"
+	"net/http"
+	"io"
 	"bufio"
 	"bytes"
 	"context"
@@ -99,7 +103,12 @@ func crashChild() {
 		crashDrv, _ = strconv.ParseInt(f[1], 10, 64)
 		crashPhase = f[2]
 	}
+	var witRef *witness.Witness
+	inCrash := false
 	drvHook = func(op string, after bool) {
+		if inCrash {
+			return
+		}
 		if !after {
 			drvN++
 			if trace {
@@ -107,6 +116,24 @@ func crashChild() {
 			}
 		}
 		if drvN == crashDrv && ((crashPhase == "before" && !after) || (crashPhase == "after" && after)) {
+			// just before the kill, a concurrent reader gets a short chance: whatever the witness hands out now
+			// must still hold after the restart (with the shipped code the reader simply waits for the connection)
+			inCrash = true
+			if witRef != nil {
+				done := make(chan struct{})
+				go func() {
+					defer close(done)
+					for _, l := range w.Logs {
+						if b, err := witRef.GetCheckpoint(l.ID); err == nil {
+							fmt.Fprintf(out, "READ %d %s\n", l.Idx, base64.StdEncoding.EncodeToString(b))
+						}
+					}
+				}()
+				select {
+				case <-done:
+				case <-time.After(25 * time.Millisecond):
+				}
+			}
 			syscall.Kill(os.Getpid(), syscall.SIGKILL)
 			select {}
 		}
@@ -131,6 +158,7 @@ func crashChild() {
 	if err != nil {
 		fail("witness.New: %v", err)
 	}
+	witRef = wit
 	if trace {
 		fmt.Fprintf(out, "TRACE init drv %d vfs %d\n", drvN, VFSOpCount())
 	}
@@ -157,6 +185,11 @@ func crashChild() {
 	os.Exit(0)
 }
 
+type childRead struct {
+	Log int
+	Out []byte
+}
+
 type childAck struct {
 	Op    int
 	Class string
@@ -165,6 +198,7 @@ type childAck struct {
 
 type childResult struct {
 	Acks    []childAck
+	Reads   []childRead
 	Killed  bool
 	Done    bool
 	DrvOps  []string // names of driver operations in order (trace runs)
@@ -212,6 +246,10 @@ func runChild(planPath, dbPath string, from, to int, crash string, trace bool) (
 			i, _ := strconv.Atoi(f[1])
 			b, _ := base64.StdEncoding.DecodeString(f[3])
 			cr.Acks = append(cr.Acks, childAck{Op: i, Class: f[2], Out: b})
+		case len(f) >= 3 && f[0] == "READ":
+			i, _ := strconv.Atoi(f[1])
+			b, _ := base64.StdEncoding.DecodeString(f[2])
+			cr.Reads = append(cr.Reads, childRead{Log: i, Out: b})
 		case len(f) >= 6 && f[0] == "TRACE" && f[1] == "drv":
 			cr.DrvOps = append(cr.DrvOps, f[3])
 			v, _ := strconv.ParseInt(f[5], 10, 64)
@@ -240,4 +278,79 @@ func integrityCheck(path string) (string, error) {
 		return "", err
 	}
 	return s, nil
+}
+
+
+// realRestart starts the REAL cmd/omniwitness binary (built from the tree under test) on the store file, the
+// way an operator restarts the service after a crash, reads every log's checkpoint over its HTTP API and stops
+// it again. This is the only place where cmd/omniwitness/monolith.go's own way of opening the store runs.
+func realRestart(bin, db string, w *World) (map[string][]byte, map[string]int, error) {
+	var lastErr error
+	for attempt := 0; attempt < 4; attempt++ {
+		out, status, retry, err := realRestartOnce(bin, db, w)
+		if err == nil {
+			return out, status, nil
+		}
+		lastErr = err
+		if !retry {
+			break
+		}
+	}
+	return nil, nil, lastErr
+}
+
+func realRestartOnce(bin, db string, w *World) (map[string][]byte, map[string]int, bool, error) {
+	ln, err := net.Listen("tcp", "127.0.0.1:0")
+	if err != nil {
+		return nil, nil, true, err
+	}
+	addr := ln.Addr().String()
+	ln.Close()
+	var se bytes.Buffer
+	cmd := exec.Command(bin, "--listen", addr, "--metrics_listen", "", "--db_file", db, "--private_key", w.WitKeys[0].Key.SignerString(),
+		"--poll_interval", "0", "--logtostderr")
+	cmd.Stderr = &se
+	cmd.Env = append(os.Environ(), "VERIF_CHILD=", "VERIF_PROP=")
+	if err := cmd.Start(); err != nil {
+		return nil, nil, true, err
+	}
+	exited := make(chan struct{})
+	go func() { cmd.Wait(); close(exited) }()
+	defer func() {
+		cmd.Process.Kill()
+		<-exited
+	}()
+	hc := &http.Client{Timeout: 5 * time.Second}
+	up := false
+	for i := 0; i < 1000 && !up; i++ {
+		if c, err := net.DialTimeout("tcp", addr, 100*time.Millisecond); err == nil {
+			c.Close()
+			up = true
+			break
+		}
+		select {
+		case <-exited:
+			// a port that was taken in the meantime is the harness's problem (retry); anything else is the binary's
+			return nil, nil, strings.Contains(se.String(), "failed to listen"), fmt.Errorf("the omniwitness binary exited during start-up: %s", se.String())
+		case <-time.After(10 * time.Millisecond):
+		}
+	}
+	if !up {
+		return nil, nil, true, fmt.Errorf("the omniwitness binary did not accept connections on %s within 10 s: %s", addr, se.String())
+	}
+	out := map[string][]byte{}
+	status := map[string]int{}
+	for _, l := range w.Logs {
+		resp, err := hc.Get("http://" + addr + "/witness/v0/logs/" + l.ID + "/checkpoint")
+		if err != nil {
+			return nil, nil, false, fmt.Errorf("GET from the restarted binary: %v (%s)", err, se.String())
+		}
+		b, _ := io.ReadAll(resp.Body)
+		resp.Body.Close()
+		status[l.ID] = resp.StatusCode
+		if resp.StatusCode == 200 {
+			out[l.ID] = b
+		}
+	}
+	return out, status, false, nil
 }
